@@ -112,6 +112,8 @@ type Sim struct {
 	quietReset     *ResetRec
 	quietRoot      *CReq
 	burstDone      bool
+	stop           *stopState
+	calm           bool
 	pendingAcc     []pendingAccess
 	connGone       map[int]int
 	tokenResetSubj map[string]bool
